@@ -866,7 +866,7 @@ theorem localcall_sim {env : Env} {file : AFile} {G : List String} {P : Prog} {F
 
 theorem stepV {env : Env} {file : AFile} {G : List String} {P : Prog} {F : GFile} (hl : Link env file G P F) {n : Nat}
     (hu : SimU env file G P F n) (hb : SimB env P F n) : SimV env file G P F (n + 1) := by
-  intro c η Γ K ρ w gρ gw Bad hctl hfrag hrel hkrel hw hgood hfc hcal
+  intro c η Γ K ρ w gρ gw Bad hctl hgoc hfrag hrel hkrel hw hgood hfc hcal
   have hfr := hfc.rel hgood
   cases c with
   | imm i =>
@@ -1247,7 +1247,7 @@ theorem stepV {env : Env} {file : AFile} {G : List String} {P : Prog} {F : GFile
           exact ⟨η, η.le_refl, gi, gw, ev_field_struct (hg gw) hlk, hty' ▸ hri, hty' ▸ hti', hw, fun _ => ⟨rfl, rfl⟩⟩
   | toDyn tr forTy e ty => simp [fragC] at hfrag
   | dynCall tr m recv args ty => simp [fragC] at hfrag
-  | go e ty => simp [fragC] at hfrag
+  | go e ty => simp [isGoC] at hgoc
   | proj e idx ty =>
     simp only [fragC, Bool.and_eq_true] at hfrag
     obtain ⟨he, hcase⟩ := hfrag
